@@ -294,6 +294,13 @@ crypt_gensalt_rn (const char *prefix, unsigned long count,
       return 0;
     }
 
+  /* A negative byte count would be converted to a huge size_t below.  */
+  if (rbytes && nrbytes < 0)
+    {
+      errno = EINVAL;
+      return 0;
+    }
+
   char internal_rbytes[UCHAR_MAX] = "\0";
   /* typeof (internal_nrbytes) == typeof (h->nrbytes).  */
   unsigned char internal_nrbytes = 0;
